@@ -37,6 +37,14 @@ def ft_sh_phase_screen(r0, N, delta, L0, l0, FFT=None, seed=None):
     Returns:
         ndarray: numpy array representing phase screen in radians
     """
+    # plain Python numbers, as in ft_phase_screen: NumPy integer scalars would overflow below
+    # (3**p * N * delta in an 8-bit pixel size, -N/2 for an unsigned N)
+    N = int(N)
+    delta = float(delta)
+    r0 = float(r0)
+    L0 = float(L0)
+    l0 = float(l0)
+
     R = numpy.random.default_rng(seed)
 
     D = N * delta
@@ -115,6 +123,7 @@ def ft_phase_screen(r0, N, delta, L0, l0, FFT=None, seed=None):
     Returns:
         ndarray: numpy array representing phase screen in radians
     """
+    N = int(N)
     delta = float(delta)
     r0 = float(r0)
     L0 = float(L0)
